@@ -20,7 +20,7 @@ CFG = {
 
 
 SMALL = {
-    'templates': ['m2m', 'composite', 'inherit', 'o2o_opt'],
+    'templates': ['m2m', 'composite', 'inherit', 'o2o_opt', 'pkref'],
     'budget': {'quick': 9000, 'thorough': 160000},
     'monitors': CFG['monitors'],
 }
